@@ -24,3 +24,55 @@ func VH_C05_DayTime() {
 	vAssert("time-parity", l.timeGanIndex%2 == l.timeZhiIndex%2)
 	vReach("C05a")
 }
+
+func specMod(a, n int) int {
+	r := a % n
+	if r < 0 {
+		r += n
+	}
+	return r
+}
+
+// C05-H2: year and month pillars for every moment of a concrete year (table = that year's real terms).
+func VH_C05_YearMonth() {
+	Y, m, d, h, mi, s := vhMoment()
+	l := NewSolar(Y, m, d, h, mi, s).GetLunar()
+	// New-Year convention
+	vAssert("year-gan", l.yearGanIndex == specMod(l.year-4, 10))
+	vAssert("year-zhi", l.yearZhiIndex == specMod(l.year-4, 12))
+	// Lichun of the civil year Y: the table entry named 立春 / LI_CHUN whose year is Y
+	lc := l.jieQi["立春"]
+	if lc.year != Y {
+		lc = l.jieQi["LI_CHUN"]
+	}
+	yl := Y - 1
+	if specCmp6(Y, m, d, 0, 0, 0, lc.year, lc.month, lc.day, 0, 0, 0) >= 0 {
+		yl = Y
+	}
+	vAssert("lichun-gan", l.yearGanIndexByLiChun == specMod(yl-4, 10))
+	vAssert("lichun-zhi", l.yearZhiIndexByLiChun == specMod(yl-4, 12))
+	ye := Y - 1
+	if specCmp6(Y, m, d, h, mi, s, lc.year, lc.month, lc.day, lc.hour, lc.minute, lc.second) >= 0 {
+		ye = Y
+	}
+	vAssert("exact-gan", l.yearGanIndexExact == specMod(ye-4, 10))
+	vAssert("exact-zhi", l.yearZhiIndexExact == specMod(ye-4, 12))
+	// month pillars: one step per Jie (even table positions), day level and instant level
+	k, ke := 0, 0
+	for i := 0; i < len(JIE_QI_IN_USE); i += 2 {
+		if specTermCmp(l, i, true, Y, m, d, 0, 0, 0) <= 0 {
+			k++
+		}
+		if specTermCmp(l, i, false, Y, m, d, h, mi, s) <= 0 {
+			ke++
+		}
+	}
+	yin := (specMod(Y-4, 10)%5 + 1) * 2 // stem of the yin month that starts at Lichun of Y
+	vAssert("month-zhi", l.monthZhiIndex == specMod(k+11, 12))
+	vAssert("month-gan", l.monthGanIndex == specMod(yin+k-3, 10))
+	vAssert("month-zhi-exact", l.monthZhiIndexExact == specMod(ke+11, 12))
+	vAssert("month-gan-exact", l.monthGanIndexExact == specMod(yin+ke-3, 10))
+	vAssert("month-parity", l.monthGanIndex%2 == l.monthZhiIndex%2 && l.monthGanIndexExact%2 == l.monthZhiIndexExact%2)
+	vAssert("year-parity", l.yearGanIndex%2 == l.yearZhiIndex%2 && l.yearGanIndexByLiChun%2 == l.yearZhiIndexByLiChun%2 && l.yearGanIndexExact%2 == l.yearZhiIndexExact%2)
+	vReach("C05b")
+}
